@@ -90,6 +90,7 @@ Proof.
   cbn [unsafe_g]. destruct n as [h subs|sl id|sl l].
   - destruct (ukind_of (h_kind h)).
     + reflexivity.
+    + apply own_unsafe_filter, U.
     + apply fn_unsafe_filter, U.
     + destruct (on_path h path); [reflexivity|].
       rewrite (own_unsafe_filter E T h (U _)).
